@@ -202,6 +202,9 @@ if __name__ == "__main__":
     elif cmd == "intake5":
         for p in sys.argv[2:]:
             intake(p, "/tmp/w5_%s/seed_out" % p, "EF")
+    elif cmd == "intake6":
+        for p in sys.argv[2:]:
+            intake(p, "/tmp/w6_%s/seed_out" % p, "GH")
     elif cmd == "confirm":
         for s in sys.argv[2:]:
             confirm(s)
